@@ -8,7 +8,7 @@ RULE = ("correspondence: every client address -2..130 x physical {None,0,5,127,1
         "pair is put into real I/UI/UA/RR/SNRM/DISC frames, parsed back, and compared; the bytes are compared with "
         "the extracted standard encoder.  non-trivial = distinct inputs that produced a value")
 ASSUMPTIONS = ["proved domain addr_ok: client without physical part, server upper <= 127 alone, server with both parts "
-               "(each <= 16383); outside it are the two known findings (F13a, F13d)"]
+               "(each <= 16383); everything else is refused at construction (former findings F13a, F13d, repaired)"]
 GRID = [0, 1, 2, 16, 63, 64, 126, 127, 128, 129, 255, 256, 257, 1000, 8191, 8192, 16256, 16382, 16383]
 
 
@@ -53,19 +53,12 @@ def f13d(l, p, server):
 
 
 def decisive(op, a):
-    if op == "addr_make_to_bytes":
-        l, p, server = a
-        lim = 16383 if server else 127
-        if l > lim or l < 0:
-            return True
-        return addr_ok(l, p, server)
-    return False
+    # since the repair of F13a / F13d every accepted address lies in the proved domain (C13_accepted_is_standard):
+    # the model's answer is determined by the theorems for every input
+    return op == "addr_make_to_bytes"
 
 
-CLASSIFIERS = {
-    "C13.server_upper_gt127_without_lower": lambda label, case: "addr" in case and any(f13a(*x) for x in case["addr"]),
-    "C13.client_with_physical_part": lambda label, case: "addr" in case and any(f13d(*x) for x in case["addr"]),
-}
+CLASSIFIERS = {}
 
 
 def frame_roundtrip(ctx, d, s, spec_d, spec_s):
@@ -76,6 +69,13 @@ def frame_roundtrip(ctx, d, s, spec_d, spec_s):
     def mk(x):
         return HdlcAddress(x[0], x[1], "server" if x[2] else "client")
     oc, os_ = guarded(lambda: mk(d)), guarded(lambda: mk(s))
+    unrepresentable = [x for x in (d, s) if f13a(*x) or f13d(*x)]
+    if unrepresentable:
+        # no 1/2/4-byte form exists: such an address must be refused when it is constructed
+        for x, o in ((d, oc), (s, os_)):
+            if (f13a(*x) or f13d(*x)) and o.ok:
+                ctx.fail("unrepresentable_address_accepted", {"addr": [list(d), list(s)]}, "refused", repr(o.value))
+        return
     if not (oc.ok and os_.ok):
         ctx.fail("accepted_address_refused", {"addr": [list(d), list(s)]}, "constructed", repr((oc, os_)))
         return
@@ -141,8 +141,8 @@ def run(ctx):
     cl = [(c, None, False) for c in (0, 1, 16, 127)]
     sv = [(l, None, True) for l in list(range(0, 128, 9)) + [127]] + [(l, p, True) for l in GRID[::2] for p in GRID[::2]]
     sv += [(r.randrange(16384), r.randrange(16384), True) for _ in range(ctx.scale(300, 5000))]
-    sv += [(200, None, True), (16383, None, True), (128, None, True)]          # F13a class (known finding)
-    cl2 = cl + [(16, 5, False)]                                                 # F13d class (known finding)
+    sv += [(200, None, True), (16383, None, True), (128, None, True)]          # no standard form: must be refused
+    cl2 = cl + [(16, 5, False)]                                                 # client with a physical part: must be refused
     spec_cases = [("spec_addr", list(x)) for x in cl2 + sv]
     spec = dict(zip([tuple(x) for x in cl2 + sv], lib.run_model(spec_cases)))
     for i, s in enumerate(sv):
